@@ -454,9 +454,10 @@ def check_lattice(ctx, case, idx_case, prev, level, prebuilt=None, model=None):
         return (pos, idx, cross, L)
 
     # ---- legacy dict state (before: fresh object; after: everything cached)
-    for which, src in (("fresh", Lattice(pos.copy(), idx.copy(), cross.copy())), ("cached", L)):
+    for which in ("fresh", "cached"):
         if V > 5000 and which == "fresh":
             continue
+        src = L if which == "cached" else Lattice(pos.copy(), idx.copy(), cross.copy())
         pr = protos[(idx_case + len(which)) % 4]
         try:
             D = pickle.loads(legacy_dumps(src, pr))
